@@ -20,26 +20,40 @@ MANIFEST = dict(
     text="Lean 4 theorems (XmpProps.C18) over a model with two independent interpreters of the linear-flow vocabulary "
          "(speed, absolute tempo, pattern delay, position jump; any order list incl. invalid entries and S3M/IT markers, "
          "restart positions, several sequences): Scan (scan_module + libxmp_scan_sequences) and Play (xmp_play_frame as a "
-         "per-tick machine). Proved (partial): for every effect of the vocabulary the scan's time accounting advances by exactly the "
-         "time the per-tick player spends in the row (exact rational time, before the int truncation); inside a pattern scan and player "
-         "run in lockstep (same row trace, same exact clock); check_end_of_module increments the loop counter exactly when the visit "
-         "budget of the scan's end point is exhausted. NOT proved: the composition across orders (next_order vs the scan's order loop, "
-         "restart / entry point logic, jump rows); this is covered by the correspondence only (the driver evaluates "
-         "rowTrace(Play.run) = Scan trace on every generated module). Proved in full: the scan's order loop terminates within "
-         "(len+1)*514+1 iterations (C18_scan_terminates). "
+         "per-tick machine). Proved in full (C18_scan_eq_play): for every module of the class ModWF (decidable: patterns non-empty, "
+         "speed >= 1, tempo >= 20, <= 256 orders, restart position inside the order list; marker formats: no pattern numbered 0xfe/0xff "
+         "and no restart position together with an end marker) that the scan accepts, and every sequence it finds (main and secondary), "
+         "the per-tick player started at the entry point with the final sequence_control / xxo_info renders exactly the rows the scan recorded "
+         "(position, speed, tempo, pattern delay and exact start time of every row), its sum of frame_time equals the scan's exact duration "
+         "(the reported int duration is its floor in ms, < 1 tick away), xxo_info[o].time of every order entered equals the sum of frame_time "
+         "before its first tick, the loop counter is 0 on all these frames, no row is played twice, and the next frame is the first tick of "
+         "the scan's end point and increments the loop counter; that row was played before or (secondary sequences) the order belongs to "
+         "another sequence. Ingredients proved separately: the order transition (next_order vs the head of the scan's order loop: skipping "
+         "invalid orders / 0xfe markers, the 0xff end marker, wrap to the restart position or entry point, never through the "
+         "orders_since_last_valid exit: C18_order_step), the jump row and last row (C18_pattern_step), one scan_module call under explicit "
+         "hypotheses (C18_scan_eq_play_seq, C18_loop_count, C18_order_start_time, C18_duration_within_ms; decidable form seqHypB, "
+         "C18_scan_eq_play_checked), termination of the scan (C18_scan_terminates), the per-row accounting identity (C18_row_accounting). "
          "The model is tied to src/scan.c, src/player.c, src/effects.c on every run by a differential correspondence on modules "
-         "written in all four formats and loaded by the real loaders, and a direct oracle on the real library.",
+         "written in all four formats and loaded by the real loaders, and a direct oracle on the real library; the driver also evaluates "
+         "the theorem's hypotheses (modWFb, seqHypB) and its conclusion (rowRecs(Play.run) = Scan trace) on every generated module / sequence.",
     note="Trusted: Lean kernel (axioms propext/Classical.choice/Quot.sound only), the hand-written model XmpModel/LinFlow.lean, "
          "the four Python module writers, the harness and the differ. Modelled-not-verified: everything in scan.c/player.c outside the "
          "vocabulary (pattern breaks, pattern loops, row delay, line jumps, global volume, ST2.6/FAR/ULT tempo, QUIRK_PROTRACK delay+break), "
          "IEEE rounding of the double sums (compared with tolerance: 2 us on sums, 1 ms on int-truncated values), the mixer. "
-         "Correspondence is sampled (differential), not exhaustive. See the theorem list in XmpProps/C18.lean for what is *_partial.",
+         "Outside the proved class: marker formats with a restart position and an end marker (model's next_order and scan then restart at "
+         "different orders below a secondary entry point; no core loader produces it). "
+         "Correspondence is sampled (differential), not exhaustive. C18_scan_eq_play_partial / C18_loop_count_partial are the earlier "
+         "in-pattern statements, kept; the full statements are C18_scan_eq_play / C18_loop_count.",
     technique="Lean 4 simulation proof between two interpreters + differential correspondence against the C through real module files",
     design_ref="DESIGN.md section 4 C18",
 )
 REQUIRED = ["Xmp.LinFlow.C18_tick_exact", "Xmp.LinFlow.C18_row_accounting", "Xmp.LinFlow.C18_play_row",
             "Xmp.LinFlow.C18_scan_eq_play_partial", "Xmp.LinFlow.C18_loop_count_partial",
-            "Xmp.LinFlow.C18_scan_terminates"]
+            "Xmp.LinFlow.C18_scan_terminates",
+            "Xmp.LinFlow.C18_order_step", "Xmp.LinFlow.C18_pattern_step", "Xmp.LinFlow.C18_scan_eq_play_seq",
+            "Xmp.LinFlow.C18_duration_within_ms", "Xmp.LinFlow.C18_scan_eq_play_checked",
+            "Xmp.LinFlow.C18_order_start_time", "Xmp.LinFlow.C18_scan_eq_play",
+            "Xmp.LinFlow.C18_loop_count"]
 
 FORMATS = ("mod", "xm", "s3m", "it")
 
@@ -341,7 +355,7 @@ def kv(line):
 def compare(real, model):
     """Compare canonical lines.  Returns None or a description of the first difference."""
     ri = [l for l in real]
-    mi = [l for l in model if not l.startswith("tracesagree")]
+    mi = [l for l in model if not l.startswith(("tracesagree", "recsagree", "seqhyp", "modwf"))]
     if len(ri) != len(mi):
         # find first structural difference
         for a, b in zip(ri, mi):
@@ -532,7 +546,7 @@ def run(ck):
     bypath = {m[0]: m for m in mods}
     stats = dict(modules=0, sequences=0, multi_sequence_modules=0, frames=0, rows=0, capped=0, loadfail=0,
                  jumps_beyond_len=0, marker_orders=0, invalid_orders=0, restart_nonzero=0, one_row_patterns=0,
-                 nobpm=0, long_mods=0, long_mods_vblank_reading_won=0, long_mods_cia_reading_kept=0, long_mods_below_threshold=0, rejected_both=0, corpus_cases=0, oracle_failures=0, model_traces_agree=0, foreign_end=0)
+                 nobpm=0, long_mods=0, long_mods_vblank_reading_won=0, long_mods_cia_reading_kept=0, long_mods_below_threshold=0, rejected_both=0, corpus_cases=0, oracle_failures=0, model_traces_agree=0, foreign_end=0, model_recs_agree=0, seqhyp_holds=0, seqhyp_fails=0, modwf_holds=0)
     per_fmt = {f: 0 for f in FORMATS}
     for (rc, out, err), sh in zip(results, shards):
         cases = parse_cases(out)
@@ -559,6 +573,7 @@ def run(ck):
                 stats["loadfail"] += 1
                 if ck.lean_ok:
                     mo = vlib.run_driver("drv_c18", "\n".join(intended_model_in(d, exp_orders)) + "\n") if exp_orders is not None else None
+                    mo = [l for l in (mo or []) if not l.startswith("modwf")]
                     if not mo or mo[0] != "scan fail":
                         ck.unproved("correspondence: module rejected by the library but accepted by the model (or unloadable writer output)",
                                     "%s: %s model=%s" % (os.path.basename(path), c["notes"], mo[:2]))
@@ -639,6 +654,25 @@ def run(ck):
                 stats["model_traces_agree"] += sum(1 for l in mo if l == "tracesagree true")
             if any(l == "tracesagree false" for l in mo) and not capped and not excluded:
                 ck.unproved("model: Scan.run and Play.run row traces differ", "%s (theorem C18_scan_eq_play contradicted?)" % os.path.basename(path))
+            if any(l == "recsagree false" for l in mo) and not capped and not excluded:
+                ck.unproved("model: Scan.run and Play.run row records (speed/tempo/delay/exact start time) differ",
+                            "%s (theorem C18_scan_eq_play_seq contradicted?)" % os.path.basename(path))
+            stats["model_recs_agree"] += sum(1 for l in mo if l == "recsagree true")
+            if "modwf true" in mo:
+                stats["modwf_holds"] += 1
+            else:
+                ck.unproved("module class ModWF (hypothesis of C18_scan_eq_play) does not hold on a generated module",
+                            os.path.basename(path))
+            # the decidable hypotheses of C18_scan_eq_play_seq / C18_loop_count (seqHypB) must hold for every
+            # sequence of every generated module, and the recorded pre-state must reproduce the sequence's scan
+            for l in mo:
+                if l.startswith("seqhyp "):
+                    if l == "seqhyp true pre true":
+                        stats["seqhyp_holds"] += 1
+                    else:
+                        stats["seqhyp_fails"] += 1
+                        ck.unproved("hypotheses of C18_scan_eq_play_seq (seqHypB) do not hold on a generated module",
+                                    "%s: %s" % (os.path.basename(path), l))
             if capped:
                 continue
             diff = compare(c["lines"], mo)
